@@ -112,7 +112,7 @@ func (j *C18Job) runOnce(ch vch.Chooser, keepTrace bool) (*c18Outcome, *vch.Sche
 	}
 	recs := make([]*recorder, len(sc.Conns))
 	ctxKey := make([]uintptr, len(sc.Conns))
-	s := vch.Run(ch, 4000, keepTrace, true, func() {
+	s := vch.Run(ch, vch.Options{MaxSteps: 4000, KeepTrace: keepTrace, KeepEvents: true}, func() {
 		var handlers []*vch.Thread
 		// http.Server.Shutdown: waits until the active handlers have returned, or gives up
 		// after the configured timeout (an environment action of the explorer)
